@@ -37,7 +37,7 @@ C("C02", "TestC02", P(1200), P(8000, 16, 1500),
   assumptions=[DOMAIN])
 
 C("C03", "TestC03", P(1000), P(6000, 16, 1500),
-  rule="rapid-generated stacks of 1..6 tables with increasing disjoint limits over a shared pool of 2..12 names and a shared range of log indices (updates, re-creations, deletions, same key in 3+ tables); "
+  rule="rapid-generated stacks of 1..6 tables with increasing disjoint limits over a shared pool of 2..12 names and a shared range of log indices (updates, re-creations, deletions, same key in 3+ tables; a fifth of the tables with incompressible block-filling log records whose deflated blocks are longer than the block size); "
        "raw NewMerged and NewStack on a hand-assembled directory; full scans and all seek key classes of C02 compared with a newest-wins overlay model; "
        "non-trivial = >=2 tables share a key and a deletion shadows an older record; distinct = hash of the case JSON",
   technique="property-based testing (rapid): merged views vs. a newest-wins overlay reference model",
@@ -57,7 +57,7 @@ C("C11", "TestC11", P(4000), P(20000, 16, 1500),
 
 C("C07", "TestC07", P(500), P(4000, 16, 1500),
   rule="rapid-generated histories of 5..40 steps on one directory: transactions over a conflict-free pool (creates, updates, deletes, symrefs, log appends, overwrites and deletions of existing log entries, limits [next,next] or wider, gaps), "
-       "CompactAll, AutoCompact, compaction of arbitrary contiguous ranges, reopen, a second read-only handle; auto-compaction after Add on/off; all write configurations; "
+       "CompactAll, AutoCompact, compaction of arbitrary contiguous ranges, reopen, a second read-only handle; auto-compaction after Add on/off; all write configurations; in a sixth of the histories two names, half of the records deletions and no logs, so that compacting a range that reaches the bottom leaves nothing and the list only shrinks; "
        "oracle = map model compared with full ref and log scans of Merged() after every step and of a fresh handle; "
        "non-trivial = a compaction of a range above older tables that still hold a key deleted by a tombstone in the range, or a compaction covering a log deletion; distinct = hash of the case JSON",
   technique="stateful property-based testing (rapid): stack vs. map reference model after every step",
@@ -154,7 +154,7 @@ C("C08", "TestC08", P(3000), P(8000, 16, 2400), pkg="conc", flavour="inst",
   exhaustive_part="thorough tier: the C04 pre-emption enumerations re-run with the M8 monitor")
 
 C("C10", "TestC10", P(3000), P(8000, 16, 2400), pkg="conc", flavour="inst",
-  rule="engine of C04 with a reading/reloading process (Open, Read, Add, AutoCompact) and 1..3 writers (Add, CompactAll, range compactions, AutoCompact, multi-table Addition, expiry); windowed schedules biased to pre-empt the reader inside its open/reload; a 'reload churn' family (a reloader whose every Add is stale against one writer alternating partial compactions and additions, under segment / operation-aligned schedules with pre-emptions); a fixed slice of 192 enumerated single pre-emption schedules; "
+  rule="engine of C04 with a reading/reloading process (Open, Read, Add, AutoCompact) and 1..3 writers (Add, CompactAll, range compactions, AutoCompact, multi-table Addition, expiry); windowed schedules biased to pre-empt the reader inside its open/reload; a 'reload churn' family (a reloader whose every Add is stale against one writer alternating partial compactions and additions, under segment / operation-aligned schedules with pre-emptions); in a fifth of the cases the 'cancelling transactions' family (three names, half deletions, no logs: compactions with an empty result, i.e. list versions that bring no new table); a fixed slice of 192 enumerated single pre-emption schedules; "
        "oracle M10 after every completed call of every handle: a full scan through Merged() succeeds, Stack.String() names exactly one version of tables.list, the scan equals that version's state decoded from disk by specdec, and the version never decreases; "
        "non-trivial = a table named in a process's last read of the list was unlinked by another process, or a handle read after tables it holds were deleted; distinct = hash of the case JSON",
   technique="property-based testing over schedules: snapshot-consistency monitor against the history of list versions decoded independently",
@@ -187,7 +187,7 @@ C("C06", "TestC06", P(400), P(1500, 16, 3000), pkg="conc", flavour="inst", level
 
 C("C19", "TestC19", P(300, timeout=900), P(800, 16, 2400), race=True,
   rule="rapid-generated view (one Reader memory- or file-backed, raw NewMerged over 1..4 tables, or a stack's merged view over files) and 20..120 read operations (SeekRef/SeekLog/RefsFor with bounded iteration, ReadRef); "
-       "the list runs once sequentially, then 2..8 goroutines run drawn (overlapping) slices of it at the same time on the SAME Reader/Merged; the test binary is built with -race (GORACE=halt_on_error=1); "
+       "the view is opened twice: the list runs once sequentially on the first instance (reference results), then 2..8 goroutines run drawn (overlapping) slices of it at the same time on the SECOND, so far untouched Reader/Merged (so that lazily initialised or learned state is first written under concurrency); in a fifth of the tables the log records are incompressible and fitted to their block to within 0..14 bytes, so that deflated log blocks longer than the block size occur (class log-stream-longer-than-block); the test binary is built with -race (GORACE=halt_on_error=1); "
        "oracle = identical result per operation and no race-detector report; non-trivial = >=2 goroutines whose slices overlap (the same operations, hence the same blocks, are read concurrently); distinct = hash of the case JSON",
   technique="property-based testing (rapid) of concurrent vs. sequential reads under the Go race detector (differential + happens-before race detection)",
   level_text="Generated read workloads; explores workloads, not goroutine schedules: the race detector is happens-before based, so it reports conflicting unsynchronised accesses that were executed, independent of the interleaving hit. " + BOUNDED,
